@@ -207,6 +207,29 @@ MODELS.update({
                       'six structural characters',
                 'order': 'RFC 8259 1 / 4: an object is an unordered collection of name/value pairs',
                 'unknown': 'Network Error Logging 4.1: unknown members of the policy object are ignored'}),
+    # the same types with boundary values: zero durations and fractions, false flags, nothing optional
+    'nel_zero': Model(
+        'httpx.header.HttpHeaderFieldValueNetworkErrorLogging',
+        [('"report_to"', '"g"', ': '), ('"max_age"', '0', ': '), ('"include_subdomains"', 'false', ': '),
+         ('"success_fraction"', '0.0', ': '), ('"failure_fraction"', '0', ': ')], ',',
+        opening='{', closing='}', ws=(0x20, 0x09, 0x0a, 0x0d), eq_ws=True, unknown=('"xq"', '0', ': '),
+        axes=('ws', 'order', 'unknown', 'same'),
+        clause={'ws': 'RFC 8259 2', 'order': 'RFC 8259 1 / 4', 'unknown': 'Network Error Logging 4.1',
+                'same': 'the canonical spelling produced by compose is itself one of the variants'}),
+    'sts_zero': Model(
+        'httpx.header.HttpHeaderFieldValueSTS', [('max-age', '0')], ';',
+        axes=('case', 'ws', 'empty', 'quote', 'unknown', 'same'), quotable=('max-age',),
+        clause={'all': 'RFC 6797 6.1 (max-age=0 is the documented way to switch HSTS off)'}),
+    'dmarc_zero': Model(
+        'dnsrec.txt.DnsRecordTxtValueDmarc',
+        [('v', 'DMARC1'), ('p', 'reject'), ('pct', '0'), ('ri', '0'), ('fo', '0')], ';', fixed=2, ws=(0x20, 0x09),
+        eq_ws=True, axes=('ws', 'order', 'unknown', 'trailing', 'same'), unknown=('xq', '0'),
+        clause={'all': 'RFC 7489 6.3 / 6.4 (see dmarc)'}),
+    'set_cookie_zero': Model(
+        'httpx.header.HttpHeaderFieldValueSetCookie',
+        [('Max-Age', '0'), ('Path', '/')], ';', prefix='sid=; ',
+        axes=('case', 'ws', 'order', 'unknown', 'same'),
+        clause={'all': 'RFC 6265 5.2 (empty cookie value, Max-Age=0 expires the cookie)'}),
     'field_sts': Model(
         'httpx.header.HttpHeaderFieldSTS',
         [('Strict-Transport-Security', 'max-age=31536000; includeSubDomains', ': ')], ';', closing='\r\n',
@@ -227,6 +250,11 @@ MODELS.update({
         clause={'ws': 'RFC 9110 5.5 / RFC 9112 5: field-line = field-name ":" OWS field-value OWS'}),
 })
 MODELS['field_sts'].eq_ws = ('eq-after', 'value-end')
+
+
+for _model in MODELS.values():
+    if 'same' not in _model.axes and not _model.closing.endswith('\r\n'):
+        _model.axes = tuple(_model.axes) + ('same',)
 
 
 def model_class(model):
@@ -342,6 +370,9 @@ def spell(model, axis, where, char, count):  # pylint: disable=too-many-branches
             extra_sep['lead'] = (model.sep + model.glue) * count
         else:
             extra_sep[where] = ('', model.glue + (model.sep + model.glue) * count)
+    elif axis == 'same':
+        if where != 0:
+            return None
     elif axis == 'trailing':
         if not 0 <= where <= 1:
             return None
@@ -453,6 +484,8 @@ def spelling(where: int, char: int, count: int) -> bool:
     cls = model_class(model)
     reference = parse(model, canonical(model))
     reach()
+    if axis == 'same':
+        text = bytes(reference.compose()).decode('ascii') + (model.closing if model.closing.endswith('\r\n') else '')
     try:
         variant = parse(model, text)
     except Exception as exc:  # pylint: disable=broad-except
@@ -575,6 +608,8 @@ def explore():
                             continue
                         seen.add(text)
                         try:
+                            if axis == 'same':
+                                text = bytes(reference.compose()).decode('ascii')
                             variant = parse(model, text)
                         except Exception as exc:  # pylint: disable=broad-except
                             problems.append('%s/%s: %r rejected (%s)' % (key, axis, text, type(exc).__name__))
